@@ -4,6 +4,9 @@ from .types import (T, TInt, TBool, TNone, TBytes, TStr, TFloat, TAny, TClassT, 
                     TOpt, TUnion, TList, TSet, TDict, TTuple)
 
 
+from . import lists as L
+
+
 class Unsupported(Exception):
     '''Construct outside the modelled Python subset -> function undecided.'''
 
@@ -131,7 +134,7 @@ def coerce(v, t):
             raise Unsupported('coerce %s -> %s' % (v.t, t))
         return opt_wrap(coerce(v, t.inner) if v.t is not TNone else v, t)
     if isinstance(t, TList) and isinstance(v.t, TList) and isinstance(t.elem, TPkt) and isinstance(v.t.elem, TPkt):
-        return V(t, v.z)
+        return V(t, L.l_mk(t, L.l_len(v.t, v.z), L.l_arr(v.t, v.z)))
     if isinstance(t, TDict) and is_py(v, 'kwdict') and t.k is TStr:
         dom = t.empty_dom()
         mp = z3.Const(fresh_name('dmap'), z3.ArraySort(t.k.sort(), t.v.sort()))
@@ -180,7 +183,7 @@ def coerce(v, t):
     if isinstance(t, TRef) and isinstance(v.t, TPkt) and t.cls == 'pkt:' + v.t.layers[0]:
         return V(t, v.z)
     if isinstance(t, TList) and isinstance(v.t, TList) and v.py == ('emptylist',):
-        return V(t, z3.Empty(t.sort()))
+        return V(t, L.l_empty(t))
     if isinstance(t, TDict) and v.py == ('emptydict',):
         return V(t, t.mk(t.empty_dom(), z3.Const(fresh_name('dmap'), z3.ArraySort(t.k.sort(), t.v.sort()))))
     if isinstance(t, TSet) and v.py == ('emptyset',):
@@ -199,7 +202,9 @@ def truthy(v):
         return v.z != 0
     if t is TNone:
         return z3.BoolVal(False)
-    if t is TBytes or isinstance(t, TList):
+    if isinstance(t, TList):
+        return L.l_len(t, v.z) > 0
+    if t is TBytes:
         return z3.Length(v.z) > 0
     if t is TStr:
         S = TStr.sort()
@@ -239,7 +244,9 @@ def truthy(v):
 
 def py_len(v):
     t = v.t
-    if t is TBytes or isinstance(t, TList):
+    if isinstance(t, TList):
+        return L.l_len(t, v.z)
+    if t is TBytes:
         return z3.Length(v.z)
     if t is TStr:
         if v.py and v.py[0] == 'strlit':
